@@ -884,6 +884,14 @@ def _tarExtractFilter(member, path):
     if os.path.commonpath([full_name, path]) != path:
         raise BuildError(f"Refusing to extract '{name}' from tar file. File is outside of destination directory.")
 
+    # Hard links are created relative to the destination. Their target must
+    # not be outside of it either. Otherwise a following member of the same
+    # name would write through the link.
+    if member.islnk():
+        link_target = os.path.realpath(os.path.join(path, member.linkname))
+        if os.path.commonpath([link_target, path]) != path:
+            raise BuildError(f"Refusing to extract '{name}' from tar file. Hard link target is outside of destination directory.")
+
     return member
 
 def tarfileOpen(*args, **kwargs):
